@@ -1,0 +1,22 @@
+//go:build verif
+
+package litestream
+
+// VerifAbandon drops everything the DB object holds on the source database the
+// way the death of the process would: the long-running read transaction and
+// the handles go away, nothing is synced, checkpointed or written. The object
+// must not be used afterwards.
+func (db *DB) VerifAbandon() {
+	if db.rtx != nil {
+		_ = db.rtx.Rollback()
+		db.rtx = nil
+	}
+	if db.db != nil {
+		_ = db.db.Close()
+		db.db = nil
+	}
+	if db.f != nil {
+		_ = db.f.Close()
+		db.f = nil
+	}
+}
